@@ -165,7 +165,7 @@ static double clearance(const Obj& A, const Obj& B, const Mat33& R2, const Vec3&
     bool touching = false;
     for (auto& fa : A.mesh.f) for (auto& fb : B.mesh.f) {
         Vec3 ta[3] = {A.mesh.v[fa[0]], A.mesh.v[fa[1]], A.mesh.v[fa[2]]}, tb[3] = {vb[fb[0]], vb[fb[1]], vb[fb[2]]};
-        int r = gk::triTri(ta, tb, eps); if (r == 1) return -1; if (r < 0) touching = true;
+        int r = gk::triTri(ta, tb, eps, 1e-9 * L); if (r == 1) return -1; if (r < 0) touching = true;
     }
     for (auto& v : vb) if (winding(A.mesh, v) > 0.5 && meshDist(A.mesh, v) > 1e-9 * L) return -1;
     for (auto& v : A.mesh.v) { Vec3 q = R2.transpose() * (v - c); if (winding(B.mesh, q) > 0.5 && meshDist(B.mesh, q) > 1e-9 * L) return -1; }
@@ -254,7 +254,7 @@ int main(int argc, char** argv) {
             auto classify = [&](const gk::RefMesh& M, const std::vector<Vec3>& mv, const gk::RefMesh& O, const std::vector<Vec3>& ov, const Transform& X_OG, std::set<int>& yes, std::set<int>& maybe) {
                 for (int f = 0; f < (int)M.f.size(); ++f) {
                     Vec3 tf[3] = {mv[M.f[f][0]], mv[M.f[f][1]], mv[M.f[f][2]]}; int cross = 0;
-                    for (auto& fo : O.f) { Vec3 to[3] = {ov[fo[0]], ov[fo[1]], ov[fo[2]]}; int r = gk::triTri(tf, to, eps); if (r < 0) { ref.degenerate = true; if (cross == 0) cross = -1; } if (r == 1) cross = 1; }
+                    for (auto& fo : O.f) { Vec3 to[3] = {ov[fo[0]], ov[fo[1]], ov[fo[2]]}; int r = gk::triTri(tf, to, eps, 1e-9 * LL); if (r < 0) { ref.degenerate = true; if (cross == 0) cross = -1; } if (r == 1) cross = 1; }
                     if (cross == 1) { yes.insert(f); continue; }
                     int in = 0, near = 0; for (int j = 0; j < 3; ++j) { Vec3 q = X_OG * tf[j]; if (meshDist(O, q) <= 1e-9 * LL) ++near; else if (winding(O, q) > 0.5) ++in; }
                     if (cross == -1 || near) maybe.insert(f); else if (in == 3) yes.insert(f);
